@@ -1,4 +1,40 @@
-import ErgoModel.Exec
+/-
+  C20 — Result attachments are confined, faithful and never lost.
+-/
+import ErgoProofs.Lemmas.PathThm
+import ErgoProofs.Lemmas.ReachInv
 namespace Ergo
-theorem C20_placeholder : True := trivial
+
+/-- Go's Clean puts every surviving ".." in front: a cleaned relative path is k × ".." followed by plain names -/
+theorem C20_clean_shape (p : Path.P) (hrel : Path.isAbs p = false) (hne : p ≠ []) :
+    ∃ (k : Nat) (names : List Path.P), (∀ c ∈ names, Path.IsName c) ∧
+      ((k = 0 ∧ names = [] ∧ Path.clean p = ['.']) ∨ ((k ≠ 0 ∨ names ≠ []) ∧ Path.clean p = Path.joinSlash (List.replicate k Path.dotdot ++ names))) :=
+  Path.clean_shape p hrel hne
+
+/-- an accepted result path is the cleaned input, relative, without any ".." component, not under `.ergo`, and names an
+    existing regular file under the project root (directories, FIFOs, devices and missing files are refused) -/
+theorem C20_confined (fs : Path.P → Path.Kind) (repo rel c : Path.P) (h : Path.validateResultPath fs repo rel = .ok c) :
+    c = Path.clean rel ∧ Path.isAbs c = false ∧ (∀ comp ∈ Path.splitSlash c, comp ≠ Path.dotdot) ∧
+    (Path.splitSlash c).head? ≠ some Path.ergoName ∧ fs (Path.join [repo, c]) = .file :=
+  Path.validate_confined fs repo rel c h
+
+/-- whatever its spelling, a path that leaves the project, is absolute, or enters `.ergo` after cleaning is refused -/
+theorem C20_escape_refused (fs : Path.P → Path.Kind) (repo rel : Path.P)
+    (h : Path.isAbs (Path.clean rel) = true ∨ (Path.splitSlash (Path.clean rel)).head? = some Path.dotdot ∨
+         (Path.splitSlash (Path.clean rel)).head? = some Path.ergoName) :
+    ∃ e, Path.validateResultPath fs repo rel = .error e :=
+  Path.validate_rejects_escape fs repo rel h
+
+/-- compaction keeps every result, in order, with its evidence fields -/
+theorem C20_compact_keeps_results (log : List Event) (h : ReachOK log) :
+    ∃ g g', replay log = .ok g ∧ replay (compactEvents g) = .ok g' ∧
+      ∀ id, (g'.find? id).map (·.results) = (g.find? id).map (·.results) := by
+  obtain ⟨g, hr, hinv⟩ := reach_replay log h
+  obtain ⟨g', h1, hobs, _, _, _⟩ := compact_replay' g hinv.ok hinv.epic0
+  refine ⟨g, g', hr, h1, fun id => ?_⟩
+  have := hobs.1 id
+  cases h1' : g'.find? id <;> cases h2' : g.find? id <;> simp [h1', h2'] at this ⊢
+  simp [obsTask] at this
+  exact this.2.2.2.2.2.2.2.2.2.2.2
+
 end Ergo
